@@ -1089,7 +1089,7 @@ def histories(ctx, want_model):
     key = (ctx.seed, ctx.tier)
     if key in _CACHE:
         return _CACHE[key]
-    n = ctx.scale(44, 1500)
+    n = int(os.environ.get("C12_NHIST", 0)) or ctx.scale(44, 1500)
     lo, hi = ctx.scale((8, 14), (20, 30))
     r = ctx.subrng("histories")
     jobs = []
@@ -1319,7 +1319,7 @@ def direct_streams(ctx):
 
 def direct_git(ctx):
     """GitScm.switch / invoke / status on real clones"""
-    n = ctx.scale(96, 4000)
+    n = int(os.environ.get("C12_NGIT", 0)) or ctx.scale(96, 4000)
     jobs = [(os.path.join(ctx.tmp, "g%d" % i), os.path.join(ctx.repo, "pym"), "C12g-%d-%s-%d" % (ctx.seed, ctx.tier, i)) for i in range(n)]
     results = []
     for i in range(0, len(jobs), 32):
